@@ -487,3 +487,111 @@ Proof.
   destruct (is_ring_inv R HR) as [_ [_ [_ [S _]]]].
   split; [apply next_of_spec; auto|]. split; [apply prev_of_spec; auto|]. exact W'.
 Qed.
+
+(* ------------------------------------------------------------------ next / previous *)
+
+Lemma next_previous_spec : forall r,
+  let r' := update_next_previous r in
+  r_las r' = r_las r /\ r_state r' = r_state r /\ r_ts r' = r_ts r /\
+  cyc_next (las_ones (r_las r)) (r_ts r) (r_ns r') /\
+  cyc_prev (las_ones (r_las r)) (r_ts r) (r_ps r').
+Proof.
+  intros r. cbv zeta. unfold update_next_previous. cbn [r_las r_state r_ts r_ns r_ps].
+  repeat split; auto; [apply next_of_spec|apply prev_of_spec]; apply las_ones_sorted.
+Qed.
+
+Definition neighbours (r : ring) : Prop :=
+  cyc_next (las_ones (r_las r)) (r_ts r) (r_ns r) /\ cyc_prev (las_ones (r_las r)) (r_ts r) (r_ps r).
+
+Lemma nsps_neighbours : forall r, nsps_ok r <-> neighbours r.
+Proof.
+  intros r. unfold nsps_ok, neighbours. split.
+  - intros [A B]. rewrite A, B. split; [apply next_of_spec|apply prev_of_spec]; apply las_ones_sorted.
+  - intros [A B]. split.
+    + eapply cyc_next_unique; [exact A|]. apply next_of_spec, las_ones_sorted.
+    + eapply cyc_prev_unique; [exact B|]. apply prev_of_spec, las_ones_sorted.
+Qed.
+
+Lemma step_nsps : forall r o r', nsps_ok r -> step r o = Ok r' -> nsps_ok r'.
+Proof.
+  intros r o r' N E. destruct o as [sa da| |a|a]; simpl in E.
+  - unfold witness in E.
+    destruct (125 <? sa); [inversion E; subst; auto|]. destruct (125 <? da); [inversion E; subst; auto|].
+    assert (U : forall q, update_las r sa da = Ok q -> nsps_ok q).
+    { intros q Q. unfold update_las in Q.
+      destruct (if sa <? da then las_fill (r_las r) sa da false
+                else (let* l1 := las_fill (r_las r) sa 128 false in las_fill l1 0 da false)); try discriminate.
+      cbn [bind] in Q. destruct (las_set a sa true); try discriminate. cbn [bind] in Q.
+      inversion Q; subst. unfold nsps_ok, update_next_previous. simpl. auto. }
+    destruct (r_state r).
+    + destruct (da <=? sa); inversion E; subst; auto.
+    + destruct (update_las r sa da) as [q| |] eqn:Q; try discriminate. cbn [bind] in E.
+      specialize (U q eq_refl). destruct (da <=? sa); inversion E; subst; auto.
+    + destruct (verify_las r sa da) as [[|]| |]; try discriminate; cbn [bind negb] in E.
+      * destruct (da <=? sa); inversion E; subst; auto.
+      * destruct (update_las r sa da) as [q| |] eqn:Q; try discriminate. cbn [bind] in E.
+        specialize (U q eq_refl). inversion E; subst; auto.
+    + apply U; auto.
+  - inversion E; subst. exact N.
+  - unfold set_next_station in E. destruct (las_set (r_las r) a true); try discriminate. cbn [bind] in E.
+    unfold update_las in E. cbn [r_las r_state r_ts r_ns r_ps] in E.
+    match type of E with (let* las := ?X in _) = _ => destruct X; try discriminate end.
+    cbn [bind] in E. match type of E with (let* las := ?X in _) = _ => destruct X; try discriminate end.
+    cbn [bind] in E. inversion E; subst. unfold nsps_ok, update_next_previous. simpl. auto.
+  - unfold remove_station in E. destruct (las_set (r_las r) a false); try discriminate. cbn [bind] in E.
+    inversion E; subst. unfold nsps_ok, update_next_previous. simpl. auto.
+Qed.
+
+Lemma step_ts : forall r o r', step r o = Ok r' -> r_ts r' = r_ts r.
+Proof.
+  intros r o r' E. destruct o as [sa da| |a|a]; simpl in E.
+  - unfold witness in E.
+    destruct (125 <? sa); [inversion E; subst; auto|]. destruct (125 <? da); [inversion E; subst; auto|].
+    assert (U : forall q, update_las r sa da = Ok q -> r_ts q = r_ts r).
+    { intros q Q. unfold update_las in Q.
+      destruct (if sa <? da then las_fill (r_las r) sa da false
+                else (let* l1 := las_fill (r_las r) sa 128 false in las_fill l1 0 da false)); try discriminate.
+      cbn [bind] in Q. destruct (las_set a sa true); try discriminate. cbn [bind] in Q.
+      inversion Q; subst. reflexivity. }
+    destruct (r_state r).
+    + destruct (da <=? sa); inversion E; subst; auto.
+    + destruct (update_las r sa da) as [q| |] eqn:Q; try discriminate. cbn [bind] in E.
+      specialize (U q eq_refl). destruct (da <=? sa); inversion E; subst; auto.
+    + destruct (verify_las r sa da) as [[|]| |]; try discriminate; cbn [bind negb] in E.
+      * destruct (da <=? sa); inversion E; subst; auto.
+      * destruct (update_las r sa da) as [q| |] eqn:Q; try discriminate. cbn [bind] in E.
+        specialize (U q eq_refl). inversion E; subst; auto.
+    + apply U; auto.
+  - inversion E; subst. reflexivity.
+  - unfold set_next_station in E. destruct (las_set (r_las r) a true); try discriminate. cbn [bind] in E.
+    unfold update_las in E. cbn [r_las r_state r_ts r_ns r_ps] in E.
+    match type of E with (let* las := ?X in _) = _ => destruct X; try discriminate end.
+    cbn [bind] in E. match type of E with (let* las := ?X in _) = _ => destruct X; try discriminate end.
+    cbn [bind] in E. inversion E; subst. reflexivity.
+  - unfold remove_station in E. destruct (las_set (r_las r) a false); try discriminate. cbn [bind] in E.
+    inversion E; subst. reflexivity.
+Qed.
+
+Lemma run_nsps : forall ops r r', nsps_ok r -> run r ops = Ok r' -> nsps_ok r' /\ r_ts r' = r_ts r.
+Proof.
+  induction ops as [|o t IH]; intros r r' N E; simpl in E.
+  - inversion E; subst. auto.
+  - destruct (step r o) as [r1| |] eqn:S; try discriminate. cbn [bind] in E.
+    destruct (IH r1 r' (step_nsps _ _ _ N S) E) as [A B]. split; auto.
+    rewrite B. eapply step_ts; eauto.
+Qed.
+
+Lemma ns_ps_invariant : forall ts ops r0 r, ring_new ts = Ok r0 -> run r0 ops = Ok r ->
+  r_ts r = ts /\ cyc_next (las_ones (r_las r)) ts (r_ns r) /\ cyc_prev (las_ones (r_las r)) ts (r_ps r).
+Proof.
+  intros ts ops r0 r E0 E.
+  destruct (Z_lt_le_dec ts 0) as [L|L]; [rewrite ring_new_panics in E0 by lia; discriminate|].
+  destruct (Z_lt_le_dec ts 128) as [L2|L2]; [|rewrite ring_new_panics in E0 by lia; discriminate].
+  destruct (ring_new_ok ts) as [q [Eq [W [T [S [N [P O]]]]]]]; [lia|].
+  rewrite Eq in E0. inversion E0; subst q.
+  assert (N0 : nsps_ok r0).
+  { unfold nsps_ok. rewrite O, N, P, T. unfold next_of, prev_of. simpl.
+    destruct (Z.ltb_spec ts ts); [lia|auto]. }
+  destruct (run_nsps ops r0 r N0 E) as [A B]. rewrite T in B. split; auto.
+  apply nsps_neighbours in A. unfold neighbours in A. rewrite B in A. exact A.
+Qed.
